@@ -39,6 +39,7 @@ Theorem C07_region_flag : forall (p : Z) (c : cfg) (cnd : slc p) s g i s' cs,
   guard s = None -> run (new_guard c cnd) s = (inl (g, i), s', cs) -> i = BOr (ignore s) (BEq (sval cnd) (VConst 0)).
 Proof.
   intros p c cnd s g i s' cs Hg. unfold new_guard, get, raise_if. cbn [bind run]. rewrite Hg. cbn [ret bind run].
+  destruct (bscopedb _ _ _); [|unfold model_err; intros H; discriminate H].
   destruct (oid cnd =? 0); cbn [fresh_oid ret bind run]; intros H; inversion H; reflexivity.
 Qed.
 
